@@ -61,6 +61,9 @@ func (g *Gen) query(ob *Oblig, dropQuant bool) string {
 	if !ob.ExpectSat {
 		b.WriteString("(assert " + ob.Guard + ")\n")
 		b.WriteString("(assert (not " + ob.Goal + "))\n")
+	} else if ob.Guard != "" && ob.Guard != "true" {
+		// cover obligation: this program point must be reachable under everything assumed so far
+		b.WriteString("(assert " + ob.Guard + ")\n")
 	}
 	b.WriteString("(check-sat)\n")
 	if !ob.ExpectSat {
